@@ -131,6 +131,8 @@ func c02class(a, b c02target) string {
 	switch {
 	case a.Method != b.Method:
 		return "method"
+	case len(a.wire()) > 100 && strings.ReplaceAll(a.wire(), "?", "") == strings.ReplaceAll(b.wire(), "?", ""):
+		return "long-component-moved-across-boundary"
 	case len(a.wire()) > 100 && len(a.wire()) == len(b.wire()):
 		return "long-target-differing-near-the-end"
 	case !strings.EqualFold(a.Host, b.Host):
@@ -224,6 +226,14 @@ func c02generate(b core.Batch) []c02target {
 	}
 	for _, p := range []string{"/npm/@scope%2Fname", "/npm/@scope%252Fname", "/files/report%41.pdf", "/files/report%2541.pdf", "/k%2f", "/k%252f", "/x%20y", "/x%2520y", "/%25", "/%2525", "/q%3Fx", "/q%253Fx", "/h%23", "/h%2523"} {
 		out = append(out, c02target{"GET", "localhost:80", p, ""}, c02target{"GET", "localhost:80", "/pre" + p, "?v=1"})
+	}
+	// long components whose tail moves across the path/query boundary in one piece (lengths around the powers of
+	// two where a truncated length prefix or counter would wrap)
+	for _, m := range []int{1, 15, 16, 17, 127, 128, 129, 254, 255, 256, 257, 300, 511, 512, 513, 1023, 1024, 1025, 4096, 65535, 65536} {
+		tok := strings.Repeat("abcdefghijklmnop", m/16+1)[:m]
+		out = append(out, c02target{"GET", "localhost:80", "/dl/" + tok, ""}, c02target{"GET", "localhost:80", "/dl/", "?" + tok})
+		out = append(out, c02target{"GET", "localhost:80", "/repo/" + tok + "/x", "?y"}, c02target{"GET", "localhost:80", "/repo/", "?" + tok + "/x?y"})
+		out = append(out, c02target{"GET", "localhost:80" + "", "/" + tok, "?q=" + tok}, c02target{"GET", "localhost:80", "/" + tok + "?q=" + tok, ""})
 	}
 	// seeded random longer targets
 	rng := b.Rand("c02")
